@@ -45,6 +45,9 @@ pub fn dummy_file() -> File {
   f
 }
 
+// NOTE: every `static mut` here has a unique non-zero initialiser on purpose: Kani 0.68 merges
+// zero-initialised statics with identical constant allocations of std (observed: a `static mut u64 = 0`
+// aliased RawVec's Cap::ZERO).  Harnesses reset the ghosts explicitly before use.
 // ---- stdout recorder (serial port, diagnostics) ----
 // Under Kani: `Stdout::write/flush` and `std::io::_print` are stubbed by the
 // recorders below.  In the native replay build nothing is stubbed; the same
@@ -52,8 +55,8 @@ pub fn dummy_file() -> File {
 // so the harness observes what the real code really wrote to stdout.
 #[cfg(not(verif_playback))]
 mod rec {
-  pub static mut OUT: [u8; 8] = [0; 8];
-  pub static mut NOUT: usize = 0;
+  pub static mut OUT: [u8; 8] = [0xa1, 0xa2, 0xa3, 0xa4, 0xa5, 0xa6, 0xa7, 0xa8];
+  pub static mut NOUT: usize = 0x5a5a_0101_0101;
   pub fn reset() { unsafe { NOUT = 0; } }
   pub fn len() -> usize { unsafe { NOUT } }
   pub fn byte(i: usize) -> u8 { unsafe { OUT[i & 7] } }
@@ -119,3 +122,97 @@ pub fn stub_lock_write_all<'a>(_s: &mut std::io::StdoutLock<'a>, buf: &[u8]) -> 
 pub fn stub_lock_flush<'a>(_s: &mut std::io::StdoutLock<'a>) -> std::io::Result<()> where 'a: 'a { Ok(()) }
 /// `print!`/`println!` end up here; the text is not modelled, one marker byte is recorded.
 pub fn stub_print(_args: std::fmt::Arguments<'_>) { rec::push(0x0a); }
+
+// ---- ROM file model (C19) ----
+// Under Kani the file is a ghost: FILE_LEN bytes long, the 80 header bytes at
+// 0x100 are HEADER, `File` seek/read/read_exact are stubbed to behave like a
+// regular file of that length.  In the native replay build a real sparse
+// temporary file with the same length and header is created and nothing is
+// stubbed: the real loader, real `mmap`.
+pub static mut FILE_LEN: u64 = 0x5a5a_0001_0001;
+pub static mut FILE_POS: u64 = 0x5a5a_0002_0002;
+pub static mut HEADER: [u8; 80] = [0xb7; 80];
+pub static mut MAPPED_BEYOND_FILE: bool = true;
+pub static mut MAP_CALLS: usize = 0x5a5a_0303_0303;
+
+#[cfg(not(verif_playback))]
+pub fn make_rom_file(header: &[u8; 80], len: u64) -> String {
+  unsafe { FILE_LEN = len; FILE_POS = 0; HEADER = *header; MAPPED_BEYOND_FILE = false; MAP_CALLS = 0; }
+  String::new()
+}
+#[cfg(verif_playback)]
+pub fn make_rom_file(header: &[u8; 80], len: u64) -> String {
+  use std::io::{Seek, SeekFrom, Write};
+  let mut p = std::env::temp_dir();
+  p.push(format!("gbdv-c19-{}.gb", std::process::id()));
+  let mut f = std::fs::OpenOptions::new().read(true).write(true).create(true).truncate(true).open(&p).expect("temp rom");
+  f.set_len(len).expect("set_len");
+  let mut i = 0u64;
+  while i < 80 {
+    if 0x100 + i < len { let _ = f.seek(SeekFrom::Start(0x100 + i)); let _ = f.write(&[header[i as usize]]); }
+    i += 1;
+  }
+  f.set_len(len).expect("set_len");
+  p.to_string_lossy().into_owned()
+}
+pub fn stub_open_rom_file(_name: String) -> Result<File, String> { Ok(dummy_file()) }
+pub fn stub_file_seek(_f: &mut File, pos: std::io::SeekFrom) -> std::io::Result<u64> {
+  unsafe {
+    let np = match pos {
+      std::io::SeekFrom::Start(n) => n,
+      std::io::SeekFrom::End(d) => (FILE_LEN as i64).wrapping_add(d) as u64,
+      std::io::SeekFrom::Current(d) => (FILE_POS as i64).wrapping_add(d) as u64,
+    };
+    FILE_POS = np;
+    Ok(np)
+  }
+}
+/// Copies file bytes [pos, pos+n) into buf[..n] without a byte loop (memcpy of the header overlap, zeros elsewhere).
+fn file_copy(pos: u64, buf: &mut [u8], n: usize) {
+  unsafe {
+    if n == 0 { return; }
+    if pos == 0x100 && n <= 80 {
+      buf[..n].copy_from_slice(&HEADER[..n]);
+    } else {
+      // other offsets are not used by the loader; serve zeros outside the header and single header bytes inside
+      let mut i = 0;
+      while i < n && i < 4 { let p = pos + i as u64; buf[i] = if p >= 0x100 && p < 0x150 { HEADER[(p - 0x100) as usize] } else { 0 }; i += 1; }
+    }
+  }
+}
+pub fn stub_file_read(_f: &mut File, buf: &mut [u8]) -> std::io::Result<usize> {
+  unsafe {
+    let avail = if FILE_POS < FILE_LEN { FILE_LEN - FILE_POS } else { 0 };
+    if avail >= buf.len() as u64 {
+      let n = buf.len();
+      file_copy(FILE_POS, buf, n);
+      FILE_POS += n as u64;
+      Ok(n)
+    } else {
+      let n = avail as usize;
+      file_copy(FILE_POS, buf, n);
+      FILE_POS = FILE_LEN;
+      Ok(n)
+    }
+  }
+}
+/// Contract stub of the ROM `mmap`: records whether the mapping extends past the end of the file
+/// (pages beyond EOF fault with SIGBUS when touched).
+pub fn stub_get_rom_buffer_contract(_f: &mut File, size: usize) -> Box<[u8]> {
+  unsafe { MAP_CALLS += 1; if (size as u64) > FILE_LEN { MAPPED_BEYOND_FILE = true; } }
+  vec![0u8; size].into_boxed_slice()
+}
+pub fn mapped_beyond_file() -> bool { unsafe { MAPPED_BEYOND_FILE } }
+pub fn stub_get_title(_h: &crate::cart::Header) -> String { String::new() }
+pub fn stub_codecache_new() -> crate::cache::CodeCache { crate::cache::CodeCache::verif_new(64) }
+
+/// `system::read_header` over the ghost file (used where the loader decision, not the header I/O, is the subject;
+/// the real `read_header` is checked against the same ghost file by its own harness).
+pub fn stub_read_header(_f: &mut File) -> Result<crate::cart::Header, String> {
+  unsafe {
+    if FILE_LEN >= 0x150 { Ok(crate::cart::Header::verif_from_bytes(HEADER)) } else { Err(String::new()) }
+  }
+}
+
+/// Dropping the (dummy) `File` would call close(2), an FFI call Kani cannot model.
+pub fn stub_ownedfd_drop(_fd: &mut std::os::fd::OwnedFd) {}
